@@ -64,6 +64,210 @@ end M;
 """
 
 
+# ================================================================================================
+# Round-3 families (local to C12; vk/families.py is shared).  All of them are syntax only: every
+# numeric quantity stays symbolic in the z3 queries.
+# ================================================================================================
+def _lines(ls, ind="  "):
+    return "".join(f"{ind}{l}\n" for l in ls)
+
+
+# ---- (A) variable attributes given by CALLS of user functions ----------------------------------
+# inline_functions decides whether the metadata expression shows the function body or an opaque
+# call node.  Piecewise-linear bodies are the interesting class (zero Hessian, not affine); the affine
+# and bilinear bodies are the neighbouring controls.  Function fn(a, lo) -> y.
+ATTR_FUNS = [
+    ("max", ["y := max(a, lo);"]),
+    ("min", ["y := min(a, lo);"]),
+    ("abs", ["y := abs(a) + lo;"]),
+    ("ifexpr", ["y := if a > lo then a else lo;"]),
+    ("ifstmt", ["if a > lo then", "  y := a;", "else", "  y := 2 * lo - a;", "end if;"]),
+    ("sat", ["y := min(max(a, -lo), lo);"]),
+    ("relu-sum", ["y := max(a, 0) + max(lo, 0);"]),
+    ("loop", ["y := a;", "for i in 1:2 loop", "  y := max(y, i * lo);", "end for;"]),
+    ("affine", ["y := 2 * a - lo + 1;"]),
+    ("bilinear", ["y := a * lo;"]),
+]
+# position -> overrides of the declaration fragments of the template below ({c} = fn(p, q))
+ATTR_POSITIONS = {
+    "state-max": {"x": "(max = {c})"},
+    "state-min": {"x": "(min = -{c})"},
+    "state-start": {"x": "(start = {c})"},
+    "state-nominal": {"x": "(nominal = {c})"},
+    "alg-max": {"y": "(min = 0.5 * p - q, max = {c})"},
+    "input-min": {"u": "(min = {c})"},
+    "param-value": {"pdecl": "  parameter Real r = {c};\n", "x": "(max = 2 * r)"},
+    "each-start": {"w": "(each start = {c})"},
+    "expr-arg": {"x": "(max = fn(2 * p - q, 1))"},
+    "nested": {"x": "(max = fn(fn(p, q), q))"},
+    "two": {"x": "(min = -fn(q, p), max = fn(p, q))"},
+    "in-sum": {"x": "(max = {c} + 2 * q)"},
+    "only-attr": {"x": "(max = {c})", "yeq": "3 * x"},  # the function is called from the attribute only
+    "no-other": {"x": "(max = {c})", "y": ""},  # no other symbolic metadata in the model
+}
+
+
+def fun_attr_model(body, pos):
+    o = {"pdecl": "", "x": "", "y": "(min = 0.5 * p - q)", "u": "", "w": "", "yeq": "fn(3 * x, 0.5)"}
+    o.update(ATTR_POSITIONS[pos])
+    o = {k: v.replace("{c}", "fn(p, q)") for k, v in o.items()}
+    fn = "function fn\n  input Real a;\n  input Real lo;\n  output Real y;\nalgorithm\n" + _lines(body) + "end fn;\n"
+    return (fn + "model M\n  parameter Real p = 5;\n  parameter Real q = 1;\n" + o["pdecl"]
+            + f"  Real x{o['x']};\n  Real y{o['y']};\n  input Real u{o['u']};\n  Real w[2]{o['w']};\n"
+            + f"equation\n  der(x) = -x + y + u;\n  y = {o['yeq']};\n  for i in 1:2 loop\n    w[i] = i * x;\n  end for;\nend M;\n")
+
+
+def fun_attr_models(tier):
+    """quick: every function at position state-max, function max at every position, and a diagonal that pairs
+    every other function with one further position; thorough: the full cross product."""
+    ms, poss = [], list(ATTR_POSITIONS)
+    for k, (fname, body) in enumerate(ATTR_FUNS):
+        for pos in poss:
+            if pos == "only-attr" and (tier == "quick" or fname != "max"):
+                continue  # a function called from a declaration only is rejected: one representative (see known findings, C11)
+            diagonal = pos == poss[(3 * k + 1) % len(poss)]
+            if tier == "quick" and not (pos == "state-max" or fname == "max" or diagonal):
+                continue
+            ms.append((f"fun-attr[{fname}|{pos}]", fun_attr_model(body, pos), "M"))
+    return ms
+
+
+# ---- (B) function for-statements over general ranges that subscript arrays with the loop variable
+# (families.fun_loop_models has ranges 1:n without array reads; the for-sub "fun-read" position has
+# one body).  Function g(c[N], d[N], C[N,2], t) -> p; N = largest subscript + 1 (an off-by-one read
+# hits a neighbour silently).  {i} is the loop variable, {r} = lo + hi - i (the mirrored subscript).
+FUN_RANGE_RANGES = {"quick": ["1:3", "3:-1:1", "2:3", "1:2:5", "3:-1:2", "2:2"],
+                    "thorough": ["1:3", "3:-1:1", "2:3", "1:2:5", "3:-1:2", "2:2", "4:-2:1", "2:2:6", "5:-2:1", "1:4", "4:-1:1", "3:3:9"]}
+FUN_RANGE_BODIES = [
+    ("horner", ["p := p * t + c[i];"]),
+    ("weighted", ["p := p + c[i] * i * t;"]),
+    ("two-arrays", ["p := p * d[i] + c[i];"]),
+    ("offset", ["p := p * t + c[i + 1];"]),
+    ("mirrored", ["p := p * t + c[{r}];"]),
+    ("both", ["p := p * c[{r}] + c[i] * t;"]),
+    ("mat-row", ["p := p * t + C[i,1] - 2 * C[i,2];"]),
+    ("two-stmts", ["s := s + c[i] * p;", "p := p * t + d[i];"]),
+    ("local", ["s := c[i] + p;", "p := s * t - d[i];"]),
+]
+FUN_RANGE_CALLS = {
+    "plain": ("  Real a;\n", "  a = g(v, w, A, a) - 1;\n", ""),
+    "in-loop": ("  Real z[2];\n  input Real u;\n", "  for k in 1:2 loop\n    z[k] = g(v, w, A, k * u);\n  end for;\n", ""),
+    "init": ("  Real a;\n", "  der(a) = g(w, v, A, a);\n", "  a = g(v, w, A, 0.5);\n"),
+    "two-calls": ("  Real a, b;\n", "  a = g(v, w, A, b);\n  b = g(w, v, A, a) + g(v, v, A, 2);\n", ""),
+}
+FUN_RANGE_QUICK_ALL_BODIES = ("3:-1:1", "2:3")
+FUN_RANGE_QUICK_ALL_CALLS = ("3:-1:1", "1:2:5")
+
+
+def fun_range_model(body, rng, call):
+    vals = families.range_values(rng)
+    r = f"{min(vals) + max(vals)} - i"
+    n = max(vals) + 2  # covers i, i + 1 and the mirrored subscript, plus one spare element
+    stm = _lines([b.replace("{r}", r) for b in body], "    ")
+    fn = (f"function g\n  input Real c[{n}];\n  input Real d[{n}];\n  input Real C[{n},2];\n  input Real t;\n  output Real p;\n"
+          f"protected\n  Real s;\nalgorithm\n  p := 0;\n  s := 1;\n  for i in {rng} loop\n{stm}  end for;\n  p := p + s;\nend g;\n")
+    decl, eqs, init = FUN_RANGE_CALLS[call]
+    return (fn + f"model M\n  Real v[{n}];\n  Real w[{n}];\n  Real A[{n},2];\n" + decl + "equation\n" + eqs
+            + ("initial equation\n" + init if init else "") + "end M;\n")
+
+
+def fun_range_models(tier):
+    ms = []
+    for (bname, body), rng, call in itertools.product(FUN_RANGE_BODIES, FUN_RANGE_RANGES[tier], FUN_RANGE_CALLS):
+        if tier == "quick" and not ((bname == "horner" and (call == "plain" or rng in FUN_RANGE_QUICK_ALL_CALLS))
+                                    or (call == "plain" and rng in FUN_RANGE_QUICK_ALL_BODIES)):
+            continue
+        if tier == "thorough" and call not in ("plain", "in-loop") and bname not in ("horner", "two-stmts"):
+            continue
+        ms.append((f"fun-range[{bname}|{rng}|{call}]", fun_range_model(body, rng, call), "M"))
+    return ms
+
+
+# ---- (C) sums / products of conditional terms with a zero branch -------------------------------
+# SX drops a zero branch (if_else_zero), so these are the expressions whose SX form differs most from
+# what was written.  Conditions c1, c2, c3 are unrelated; terms a, b, d.
+def _g(c, a):
+    return f"(if {c} then {a} else 0)"
+
+
+GUARD_FORMS = {
+    "sum-unrelated": lambda c1, c2, c3, a, b, d: f"{_g(c1, a)} + {_g(c2, b)}",
+    "sum-complement": lambda c1, c2, c3, a, b, d: f"{_g(c1, a)} + {_g('not ' + c1, b)}",
+    "sum-same": lambda c1, c2, c3, a, b, d: f"{_g(c1, a)} + {_g(c1, b)}",
+    "sum-zero-then": lambda c1, c2, c3, a, b, d: f"(if {c1} then 0 else {a}) + (if {c2} then 0 else {b})",
+    "sum-mixed": lambda c1, c2, c3, a, b, d: f"{_g(c1, a)} + (if {c2} then 0 else {b})",
+    "diff": lambda c1, c2, c3, a, b, d: f"{_g(c1, a)} - {_g(c2, b)}",
+    "prod": lambda c1, c2, c3, a, b, d: f"{_g(c1, a)} * {_g(c2, b)}",
+    "sum3": lambda c1, c2, c3, a, b, d: f"{_g(c1, a)} + {_g(c2, b)} + {_g(c3, d)}",
+    "nested": lambda c1, c2, c3, a, b, d: f"{_g(c1, _g(c2, a))} + {_g(c3, b)}",
+    "scaled": lambda c1, c2, c3, a, b, d: f"2 * {_g(c1, a)} + {_g(c2, b)} * {d}",
+    "neg": lambda c1, c2, c3, a, b, d: f"-{_g(c1, a)} + {_g(c2, b)}",
+    "elseif-zero": lambda c1, c2, c3, a, b, d: f"(if {c1} then {a} elseif {c2} then {b} else 0) + {_g(c3, d)}",
+    "genuine": lambda c1, c2, c3, a, b, d: f"(if {c1} then {a} else {b}) + {_g(c2, d)}",
+    "and-or": lambda c1, c2, c3, a, b, d: f"{_g(c1 + ' and ' + c2, a)} + {_g(c1 + ' or ' + c3, b)}",
+    "max": lambda c1, c2, c3, a, b, d: f"max({_g(c1, a)}, {_g(c2, b)})",
+}
+GUARD_POSITIONS = ["eq", "loop", "init", "fun", "call"]
+GUARD_QUICK_POS_FORMS = ("sum-unrelated", "sum-mixed", "sum3", "nested")
+# quick tier, other options at their defaults: every form as a plain equation, one form at every position
+GUARD_QUICK_DEFAULT_BASE = lambda cid: cid.endswith("|eq]") or cid.startswith("guard[sum-unrelated|")
+
+
+def guard_model(form, pos):
+    f = GUARD_FORMS[form]
+    gain = "function gain\n  input Real a;\n  input Real k;\n  output Real y;\nalgorithm\n  y := k * a + 1;\nend gain;\n"
+    S = "  parameter Real k = 2;\n  input Real u;\n  input Real v;\n  Real x;\n  Real y;\n"
+    if pos == "eq":
+        return "model M\n" + S + f"equation\n  der(x) = {f('u > 1', 'x > 1.2', 'k > 1', '2 * x + 1', 'v', 'y')};\n  y = x * k;\nend M;\n"
+    if pos == "call":
+        return (gain + "model M\n" + S + f"equation\n  der(x) = {f('u > 1', 'x > 1.2', 'k > 1', 'gain(x, k)', 'v', 'gain(y, 2)')};\n"
+                "  y = x * k;\nend M;\n")
+    if pos == "init":
+        return ("model M\n" + S + "equation\n  der(x) = y - x;\n  y = x * k + u;\ninitial equation\n"
+                f"  x = {f('u > 1', 'k > 1', 'v > u', 'k * u + 1', '2', 'v')};\nend M;\n")
+    if pos == "loop":
+        return ("model M\n  parameter Real k = 2;\n  input Real u[2];\n  Real x[2];\n  Real y;\nequation\n  for i in 1:2 loop\n"
+                f"    der(x[i]) = {f('u[i] > 1', 'x[i] > 1.2', 'k > i', 'k * x[i] + 1', 'u[i]', 'i')};\n  end for;\n"
+                "  y = if x[1] > 1 then x[2] else u[1];\nend M;\n")
+    if pos == "fun":
+        fn = ("function f\n  input Real a;\n  input Real b;\n  output Real y;\nalgorithm\n"
+              f"  y := {f('a > 1', 'b > 1.2', 'a > b', '2 * a + 1', 'b', 'a * b')};\nend f;\n")
+        return fn + "model M\n" + S + "equation\n  der(x) = f(x, u) - v;\n  y = f(u, x * k);\nend M;\n"
+    raise ValueError(pos)
+
+
+def guard_models(tier):
+    ms = []
+    for form, pos in itertools.product(GUARD_FORMS, GUARD_POSITIONS):
+        if tier == "quick" and not (pos == "eq" or form in GUARD_QUICK_POS_FORMS):
+            continue
+        ms.append((f"guard[{form}|{pos}]", guard_model(form, pos), "M"))
+    return ms
+
+
+# ---- (D) one equation per operator: what the SX -> MX rebuild of expand_vectors + expand_mx sees ----
+OP_EXPRS = ["a + b", "a - b", "a * b", "a / b", "a ^ 2", "a ^ 3", "a ^ b", "a ^ 0.5", "2 ^ a", "-a", "a - (-b)", "1 / a",
+            "sin(a)", "cos(a)", "tan(a)", "exp(a)", "log(a)", "abs(a)", "sqrt(a)", "min(a, b)", "max(a, b)", "a * a", "a + a",
+            "if a < b then a else b", "if a <= b then a else c", "if a > b then 1 else c", "if a >= b then b else 2",
+            "if a == b then a else b", "if a <> b then c else b", "if a < b and b < c then a else c",
+            "if a < b or b < c then a else c", "if not a < b then a else c", "if a < b then a elseif b < c then b else c",
+            "if a < b then (if b < c then a else b) else c", "min(a, b) * max(b, c)", "abs(a - b) / (1 + c * c)"]
+
+
+def op_models():
+    return [(f"ops[{i // 12}]", families.batch_model(OP_EXPRS[i:i + 12]), "M") for i in range(0, len(OP_EXPRS), 12)]
+
+
+# models of the existing families that the quick tier also compiles with the other options fixed
+BASE_MODELS_QUICK = ("attr-fun", "delay", "init", "init-if", "for-1d[3]", "for-step[1:2:3]", "for-2d", "for-two-eq", "for-der", "der-vec",
+                     "vec-ops", "vec-neg-if", "mat-ops", "mat-transpose", "fun-if", "fun-for", "fun-two-out", "ifeq-else", "ifeq-nested-expr",
+                     "fun-call[elem-and-loop]", "fun-call[mat-row]", "for-sub[2 * i|1:3|rhs|slack2]", "for-sub[4 - i|1:3|row-slice|slack2]",
+                     "fun-loop[fwd|1:3|multi]", "mat-eq[2x2|prod-r|eq]", "mat-eq[2x2|if|eq]", "mat-sq[2|for-row]")
+EDIT_BASE_MODELS_QUICK = ("guard[sum-unrelated|loop]",)
+EDIT_BASE_MODELS_THOROUGH = ("for-1d[3]", "attr-fun", "fun-attr[max|state-max]", "fun-range[horner|3:-1:1|in-loop]", "delay")
+EDIT_BASE_SCRIPTS = ("attrs", "scale-eq", "append-init", "two-rounds")
+
+
 def describe(model):
     d = {}
     for cat in ["states", "der_states", "alg_states", "inputs", "constants", "parameters"]:
@@ -87,6 +291,23 @@ def build(text, cls, cfg):
     m = pipeline.real_generate(text, cls, cfg)
     m.simplify(cfg)
     return m
+
+
+# ---- third dimension: the other (non-representation) compiler options, held fixed ---------------
+# "For every model, toggling the representation options ..." includes models compiled with any fixed
+# setting of the remaining options; the 8 configurations are layered on top of each base set.
+BASES = {
+    "": {},
+    "ev": {"expand_vectors": True},
+}
+
+
+def with_base(base, cfg):
+    return dict(BASES[base], **cfg)
+
+
+def base_tag(cid, base):
+    return f"{cid}@{base}" if base else cid
 
 
 # ---- edit scripts: reads of the four functions interleaved with edits of the public Model ------
@@ -212,11 +433,12 @@ def run_script(text, cls, cfg, steps):
 
 
 def work_edit(item):
-    cid, text, cls, sname, steps = item
+    cid0, text, cls, bname, sname, steps = item
+    cid = base_tag(cid0, bname)
     col = Collector()
     try:
         try:
-            base, reads0 = run_script(text, cls, CONFIGS[0], steps)
+            base, reads0 = run_script(text, cls, with_base(bname, CONFIGS[0]), steps)
             names = modelio.model_in_names(base)
         except Inapplicable:
             return col
@@ -226,6 +448,7 @@ def work_edit(item):
         for cfg in CONFIGS[1:]:
             tag = "u%di%de%d" % (cfg["unroll_loops"], cfg["inline_functions"], cfg["expand_mx"])
             case = f"{cid}:edit[{sname}]:{tag}"
+            cfg = with_base(bname, cfg)
             extra = {"options": cfg, "script": steps}
             try:
                 m, reads = run_script(text, cls, cfg, steps)
@@ -266,18 +489,28 @@ def edit_items(items, tier):
         if cid in seen:
             continue
         seen.add(cid)
-        out += [(cid, text, cls, sname, steps) for sname, steps in scripts.items()]
+        out += [(cid, text, cls, "", sname, steps) for sname, steps in scripts.items()]
+    # the same scripts on models compiled with the other options fixed at non-default values
+    for bname in BASES:
+        if not bname:
+            continue
+        names = EDIT_BASE_MODELS_QUICK + (EDIT_BASE_MODELS_THOROUGH if tier == "thorough" else ())
+        snames = EDIT_BASE_SCRIPTS if tier == "quick" else tuple(scripts)
+        for cid, text, cls in items:
+            if cid in names:
+                out += [(cid, text, cls, bname, sname, scripts[sname]) for sname in snames]
     return out
 
 
 def work(item):
-    if len(item) == 5:
+    if len(item) == 6:
         return work_edit(item)
-    cid, text, cls = item
+    cid0, text, cls, bname = item
+    cid = base_tag(cid0, bname)
     col = Collector()
     try:
         try:
-            base = build(text, cls, CONFIGS[0])
+            base = build(text, cls, with_base(bname, CONFIGS[0]))
             d0 = describe(base)
             names = modelio.model_in_names(base)
             pnames = [names[6]]
@@ -295,6 +528,7 @@ def work(item):
         for cfg in CONFIGS[1:]:
             tag = "u%di%de%d" % (cfg["unroll_loops"], cfg["inline_functions"], cfg["expand_mx"])
             case = f"{cid}:{tag}"
+            cfg = with_base(bname, cfg)
             try:
                 m = build(text, cls, cfg)
             except Exception as e:
@@ -316,7 +550,9 @@ def work(item):
                     col.append("encoding_gaps", f"{case}:{fname}: {g}")
             col.bump("configurations", 1)
         col.bump("programs", 1)
-        col.sample({"model": cid, "configs": 8})
+        if bname:
+            col.bump("programs@" + bname, 1)
+        col.sample({"model": cid0, "fixed_options": BASES[bname], "configs": 8})
     except Exception:
         col.harness_error(f"{cid}: " + traceback.format_exc()[-1500:])
     return col
@@ -339,8 +575,23 @@ def main():
     if args.tier == "thorough":
         ex = families.scalar_exprs("quick")
         items += [(f"scalar{i}", families.batch_model(ex[i:i + 12]), "M") for i in range(0, len(ex), 12)]
+    new = fun_attr_models(args.tier) + fun_range_models(args.tier) + guard_models(args.tier)
+    old_ids = {m[0] for m in items}
+    items += new
+    # every model under the default remaining options; then selected ones with the remaining options fixed otherwise
+    pitems = [m + ("",) for m in items if not (args.tier == "quick" and m[0].startswith("guard[") and not GUARD_QUICK_DEFAULT_BASE(m[0]))]
+    for bname in BASES:
+        if not bname:
+            continue
+        if args.tier == "quick":
+            chosen = [m for m in items if m[0] in BASE_MODELS_QUICK or m[0].startswith("repo:")] + op_models()
+            chosen += [m for k, m in enumerate(new) if m[0].startswith(("guard[", "fun-range[horner|")) or (m[0].startswith("fun-attr[") and k % 3 == 0)]
+        else:
+            old = [m for m in items if m[0] in old_ids]
+            chosen = [m for k, m in enumerate(old) if k % 3 == 0 or m[0] in BASE_MODELS_QUICK or m[0].startswith("repo:")] + new + op_models()
+        pitems += [m + (bname,) for m in chosen]
     eitems = edit_items(items, args.tier)
-    for col in run_parallel(work, items + eitems, args.jobs):
+    for col in run_parallel(work, pitems + eitems, args.jobs):
         rep.merge(col)
     cov = rep.coverage
     cov["edit_script_items"] = len(eitems)
